@@ -56,8 +56,36 @@ static COUNTDOWN: AtomicI64 = AtomicI64::new(0);
 /// fired just before it. (0 disarms.)
 pub fn arm_virtual_timer(n: i64) { COUNTDOWN.store(n, Ordering::SeqCst); }
 
+static RELEASE_COUNTDOWN: AtomicI64 = AtomicI64::new(0);
+static CALLBACK_DONE: AtomicBool = AtomicBool::new(false);
+
+/// The n-th following call of count_rules() lets a timer callback which waits
+/// at the gate pass, and waits until it has finished. (0 disarms.)
+pub fn release_gate_at_count(n: i64) { RELEASE_COUNTDOWN.store(n, Ordering::SeqCst); }
+
+/// Called by the timer callback when it has finished.
+pub fn after_timer_callback() { CALLBACK_DONE.store(true, Ordering::SeqCst); }
+
+/// Has a timer callback finished since the last call of this function?
+pub fn callback_done() -> bool { CALLBACK_DONE.swap(false, Ordering::SeqCst) }
+
+/// Lets the waiting callback pass and waits (up to 2 seconds) until it has finished.
+pub fn release_callback_and_wait() {
+    CALLBACK_DONE.store(false, Ordering::SeqCst);
+    release_callback();
+    for _ in 0..2000 {
+        if CALLBACK_DONE.load(Ordering::SeqCst) { return; }
+        std::thread::sleep(Duration::from_millis(1));
+    }
+}
+
 /// Called at the start of count_rules().
 pub fn on_count_rules() {
+    let r = RELEASE_COUNTDOWN.load(Ordering::SeqCst);
+    if r > 0 {
+        RELEASE_COUNTDOWN.store(r - 1, Ordering::SeqCst);
+        if r == 1 { release_callback_and_wait(); }
+    }
     let c = COUNTDOWN.load(Ordering::SeqCst);
     if c > 0 {
         COUNTDOWN.store(c - 1, Ordering::SeqCst);
